@@ -75,14 +75,24 @@ func init() {
 			if active["C11.I1.halt/dec-overflow"] || active["C11.I1.halt/power-int64"] || active["C11.I2.consensus-would-panic/power-exceeds-consensus-maximum"] {
 				g.CapBits = 40
 				g.Capped = &cappedC11
+				// ordinary generated amounts (up to 10^24 base units) reach the same overflow
+				// domain once a price is applied: keep them below it as well
+				g.ClampBits = 50
 			}
 		},
 		Known: func(m *Machine, v *Violation) string {
 			act := activeKnown["C11"]
 			big := false
 			for i, a := range m.Log {
-				if i < len(m.Outs) && m.Outs[i].OK && a.Amount != "" && amt(a.Amount).BitLen() > 60 {
+				if i < len(m.Outs) && m.Outs[i].OK && a.Amount != "" && amt(a.Amount).BitLen() > 50 {
 					big = true
+				}
+				if i < len(m.Outs) && m.Outs[i].OK {
+					for _, x := range a.Amounts {
+						if amt(x).BitLen() > 50 {
+							big = true
+						}
+					}
 				}
 				if i < len(m.Outs) && m.Outs[i].OK && a.Kind == "rawCall" && rawCallHasBigWord(a.Data) {
 					big = true
@@ -195,7 +205,7 @@ func rawCallHasBigWord(dataHex string) bool {
 	}
 	for off := 4; off+32 <= len(b); off += 32 {
 		w := new(big.Int).SetBytes(b[off : off+32])
-		if w.BitLen() > 60 {
+		if w.BitLen() > 50 {
 			return true
 		}
 	}
